@@ -429,6 +429,25 @@ func genC15(t *rapid.T) c15Case {
 	vLongNameOneIn = 3
 	defer func() { vLongNameOneIn = 10 }()
 	s := vGenScenario(t, vScenOpts{MinDays: 1, MaxDays: 4, MaxEntries: 5})
+	// two recipes whose name+quantity spell the same text when written without a separator
+	// ("b1" x 25 and "b12" x 5): any cache or index keyed by such a concatenation mixes them up
+	if rapid.IntRange(0, 4).Draw(t, "concat") == 0 && len(s.Log.Recs) > 0 {
+		plain := vLayout{Indent: "  ", Sep: ": ", EOL: "\n"}
+		base := "supp/b" + fmt.Sprint(rapid.IntRange(1, 9).Draw(t, "cb"))
+		d := fmt.Sprint(rapid.IntRange(1, 9).Draw(t, "cd"))
+		rest := fmt.Sprint(rapid.IntRange(1, 9).Draw(t, "cr"))
+		n1, n2 := base, base+d
+		s.Book.Recs = append(s.Book.Recs,
+			vRec{Head: n1, HL: vLayout{EOL: "\n"}, Lines: []vLine{{Kind: vkEntry, Name: "x1", Num: "2", L: plain}}},
+			vRec{Head: n2, HL: vLayout{EOL: "\n"}, Lines: []vLine{{Kind: vkEntry, Name: "x2", Num: "3", L: plain}, {Kind: vkEntry, Name: "x1", Num: "-1", L: plain}}})
+		s.Book.NoFinalNL = false
+		s.Recipes = append(s.Recipes, n1, n2)
+		i := rapid.IntRange(0, len(s.Log.Recs)-1).Draw(t, "cday")
+		j := rapid.IntRange(0, len(s.Log.Recs)-1).Draw(t, "cday2")
+		s.Log.Recs[i].Lines = append(s.Log.Recs[i].Lines, vLine{Kind: vkEntry, Name: n1, Num: d + rest, L: plain})
+		s.Log.Recs[j].Lines = append(s.Log.Recs[j].Lines, vLine{Kind: vkEntry, Name: n2, Num: rest, L: plain})
+		s.Log.NoFinalNL = false
+	}
 	c := c15Case{S: s, X: s.Basics[rapid.IntRange(0, len(s.Basics)-1).Draw(t, "x")]}
 	switch rapid.IntRange(0, 2).Draw(t, "tpl") {
 	case 1:
